@@ -1,6 +1,9 @@
 package ast
 
-import "math/rand"
+import (
+	"math/rand"
+	"sort"
+)
 
 // BareHeads returns a copy of p in which head mode annotations of written types (process
 // types, signatures, cut annotations, type definitions) are omitted, each with probability
@@ -150,4 +153,67 @@ func BareHeads(p *Program, r *rand.Rand, pct int) (*Program, int) {
 		return p.Clone(), 0
 	}
 	return q, n
+}
+
+// IdentBag lists every occurrence of a non-self name in the bodies of p (binders included,
+// with explicit polarity marks), print / choice labels ("label:l") and called functions
+// ("fn:f"), sorted. An exec declaration counts as one call of its function; the explicit provider name of a function counts as self.
+func IdentBag(p *Program) []string {
+	var bag []string
+	var prov string
+	name := func(ns ...string) {
+		for _, n := range ns {
+			b := Base(n)
+			if n == "" || b == "self" || (prov != "" && b == prov) {
+				continue
+			}
+			bag = append(bag, n)
+		}
+	}
+	var walk func(t *Term)
+	walk = func(t *Term) {
+		if t == nil {
+			return
+		}
+		switch t.Op {
+		case "send", "recv", "split":
+			name(t.X, t.Y, t.Z)
+		case "sel":
+			name(t.X, t.Y)
+			bag = append(bag, "label:"+t.Lbl)
+		case "cast", "fwd", "shift":
+			name(t.X, t.Y)
+		case "case":
+			name(t.X)
+			for _, b := range t.Brs {
+				name(b.Var)
+				bag = append(bag, "label:"+b.Lbl)
+				walk(b.Body)
+			}
+		case "new":
+			name(t.Y)
+		case "close", "wait", "drop":
+			name(t.X)
+		case "call":
+			name(t.Args...)
+			bag = append(bag, "fn:"+t.Fn)
+		case "print":
+			bag = append(bag, "label:"+t.Lbl)
+		}
+		walk(t.Body)
+		walk(t.Cont)
+	}
+	for _, pr := range p.Procs {
+		prov = ""
+		walk(pr.Body)
+	}
+	for _, f := range p.Funcs {
+		prov = f.Prov
+		walk(f.Body)
+	}
+	for _, e := range p.Execs {
+		bag = append(bag, "fn:"+e) // exec f() is a process whose body is the call f()
+	}
+	sort.Strings(bag)
+	return bag
 }
